@@ -932,7 +932,16 @@ impl Recv {
         // So, we have a separate limit for these.
         //
         // See https://github.com/hyperium/hyper/issues/2877
-        if stream.is_pending_accept {
+        //
+        // Only a reset that turns the stream into a remotely reset one is
+        // counted, since that state is what un-counts it when the stream
+        // is accepted: a stream that is remotely reset already, or that is
+        // closed with nothing left to send (the frame is then ignored
+        // below), must not be counted (again).
+        let becomes_remote_reset = !stream.state.is_remote_reset()
+            && !(stream.state.is_closed() && !stream.is_pending_send);
+
+        if stream.is_pending_accept && becomes_remote_reset {
             if counts.can_inc_num_remote_reset_streams() {
                 counts.inc_num_remote_reset_streams();
             } else {
